@@ -27,11 +27,12 @@ StartProc(p) ==
   /\ alive[p] /\ ipc = "free" /\ cs[p] = None
   /\ (Readable \/ FixF5)
   /\ avail' = [avail EXCEPT ![p] = info.total - Sum({j \in OnDisk : files[j] = "written"})]
-  /\ info' = [info EXCEPT !.ptotal[p] = info.total]
+  /\ info' = [info EXCEPT !.ptotal[p] = info.total, !.started[p] = "counted"]
   /\ cache' = [cache EXCEPT ![p] = {j \in OnDisk : files[j] = "written"}]
   /\ watching' = [watching EXCEPT ![p] = @ \cup {j \in OnDisk : files[j] = "written"}]
   /\ files' = [j \in Jobs |-> IF files[j] = "empty" THEN "absent" ELSE files[j]]
-  /\ UNCHANGED <<ipc, cs, alive, obs, pend, jobst, dstat, notify, reclaiming, wl>>
+  /\ obs' = [obs EXCEPT ![p] = FALSE]       \* (the directory is not watched yet: StartWatch, event tok.watching)
+  /\ UNCHANGED <<ipc, cs, alive, pend, jobst, dstat, notify, reclaiming, wl>>
 
 (* release: the ipc lock is taken and the directory recounted (no event between the two) *)
 RelLockRecount(p, j) ==
@@ -66,6 +67,7 @@ Logged ==
   \/ IsEvent("tok.info.write") /\ DeclareWrite(Ev.p, Ev.total)
   \/ IsEvent("tok.init") /\ StartProc(Ev.p) /\ avail'[Ev.p] = Ev.available /\ info.total = Ev.total
   \/ IsEvent("tok.evt.info") /\ OnInfo(Ev.p) /\ info'.ptotal[Ev.p] = Ev.total /\ Ev.delta = info.total - info.ptotal[Ev.p]
+  \/ IsEvent("tok.watching") /\ StartWatch(Ev.p) /\ (FixF27 => avail'[Ev.p] = Ev.available)
   \/ IsEvent("h.start") /\ Stutter
   \/ IsEvent("tok.init.error") /\ StartFails(Ev.p)
   \/ IsEvent("h.resubmit") /\ Resubmit(Ev.job, Ev.count)
@@ -80,8 +82,9 @@ Logged ==
   \/ IsEvent("tok.acq.ok") /\ AcqOk(Ev.p) /\ avail'[Ev.p] = Ev.available
   \/ IsEvent("tok.rel.lock") /\ RelLockRecount(Ev.p, Ev.job)
   \/ IsEvent("tok.rel.ok") /\ RelOk(Ev.p) /\ avail'[Ev.p] = Ev.available
-  \/ IsEvent("tok.rel.missing") /\ cs' = [cs EXCEPT ![Ev.p] = None] /\ ipc' = "free"
-        /\ UNCHANGED <<files, alive, obs, avail, cache, watching, pend, jobst, dstat, notify, reclaiming, wl, info>>
+  \/ IsEvent("tok.rel.missing") /\ cs' = [cs EXCEPT ![Ev.p] = None] /\ ipc' = "free" /\ ~Present(Ev.job)
+        /\ jobst' = [jobst EXCEPT ![Ev.job] = "released"]
+        /\ UNCHANGED <<files, alive, obs, avail, cache, watching, pend, dstat, notify, reclaiming, wl, info>>
   \/ IsEvent("tok.file.delete") /\ (IF cs[Ev.p].kind = "rel" /\ cs[Ev.p].job = Ev.job THEN RelDelete(Ev.p) ELSE ReclaimDelete(Ev.p, Ev.job))
   \/ IsEvent("tok.watch.start") /\ Stutter      \* (the thread may announce itself before the handler that started it reports)
   \/ IsEvent("tok.watch.reclaim") /\ ReclaimDecide(Ev.p, Ev.job)
@@ -104,7 +107,7 @@ Logged ==
 TraceNext == Logged
 
 WlOf(t) == [owner |-> [j \in Jobs |-> IF j \in DOMAIN t.owner THEN t.owner[j] ELSE "p1"],
-            req |-> [j \in Jobs |-> IF j \in DOMAIN t.req THEN t.req[j] ELSE 1], total |-> t.total, totals |-> {}, resub |-> {1, 2, 3, 4}]
+            req |-> [j \in Jobs |-> IF j \in DOMAIN t.req THEN t.req[j] ELSE 1], total |-> t.total, totals |-> {}, resub |-> {1, 2, 3, 4}, late |-> {}]
 TraceInit == /\ tid \in DOMAIN Traces /\ InitWith(WlOf(Traces[tid].wl)) /\ l = 1
 TraceSpec == TraceInit /\ [][TraceNext]_tvars
 
